@@ -15,6 +15,8 @@ import (
 	"log"
 	"net/http"
 	"net/http/httptest"
+	"net/http/httptrace"
+	"net/textproto"
 	"net/url"
 	"os"
 	"sort"
@@ -22,6 +24,7 @@ import (
 	"strings"
 	"sync"
 	"sync/atomic"
+	"time"
 
 	"github.com/getkin/kin-openapi/openapi3"
 	"github.com/getkin/kin-openapi/openapi3filter"
@@ -35,12 +38,16 @@ import (
 func init() {
 	hx.Register(&hx.Prop{
 		ID: "C14",
-		Rule: "exhaustive: every handler op sequence of length ≤ 3 (thorough: ≤ 4) over a 10-letter alphabet (Content-Type set, X-A set to a valid / an invalid value, WriteHeader 200/404/0, Write valid/invalid piece, empty Write, Flush) " +
+		Rule: "exhaustive: every handler op sequence of length ≤ 3 (thorough: ≤ 4) over a 12-letter alphabet (Content-Type set, X-A set to a valid / an invalid value, WriteHeader 200/404/0/103, Write valid/invalid piece, empty Write, Flush, panic) " +
 			"× strict/non-strict × 10 response-document shapes (exact, range and default keys; JSON content, required response header, both; IncludeResponseStatus, ExcludeResponseBody); " +
 			"every way an operation can constrain the request, alone and in pairs with exactly one failing (document-level / operation-level security incl. override, empty list, undeclared scheme, AND/OR requirements; " +
 			"operation-level and path-level parameters in query/header/cookie/path; body schema/empty/content-type) × strict × routers × transports × Validator/ValidationHandler × neighbour operations that demand nothing; " +
 			"plus route/request failures × ErrFunc kinds (default http.Error, echo, silent, custom op list) × routers × recorder/real server, " +
-			"plus ValidationHandler (ServeHTTP/Middleware × custom/ValidationErrorEncoder × route/request outcomes); then a seeded random stream of op lists up to length 8 " +
+			"plus ValidationHandler (ServeHTTP/Middleware × custom/ValidationErrorEncoder × route/request outcomes); " +
+			"plus HISTORIES: every pair over a pool of 20 steps (9 handler behaviours × two operations with different responses, a rejected route, a rejected request) and every triple over a pool of 6, " +
+			"through ONE Validator chain, strict/non-strict × 3 two-operation documents, a rotating part behind the real server, with the other callbacks and with all requests in flight at once (barrier inside the handlers); the same for ValidationHandler; " +
+			"plus optional-interface calls (probe of 11 interfaces, ResponseController.Flush, io.Copy, io.WriteString), bodies of 40 kB (thorough 300 kB), 8 pieces, informational codes in every position, panics after partial output × both transports; " +
+			"plus every option list of length ≤ 3 over {Strict(true), Strict(false), OnErr ×2, OnLog, ValidationOptions ×2} handed to NewValidator; then a seeded random stream of op lists up to length 8 and of histories of 2-4 requests " +
 			"(incl. invalid status codes, header deletions, Content-Type variants). Non-trivial = the model reports a non-default branch (e.g. write before WriteHeader, several WriteHeader calls, " +
 			"no status at all, Flush before the status, strict replacement, custom callbacks, real server transport).",
 		Exhaustive: true,
@@ -51,7 +58,9 @@ func init() {
 		Workers:    8,
 		Assumptions: []string{
 			"verdicts of FindRoute / ValidateRequest / ValidateResponse are controlled through the document and the request (required integer query parameter; response entries with or without an application/json integer schema; body bytes drawn from digits 1-9 and 'x') and recomputed by the driver for that family",
-			"status codes 1xx, 204, 304 and HEAD requests are not generated (httptest.ResponseRecorder and the net/http server differ there); only behaviour common to both transports is compared",
+			"status codes 101, 204, 304 are not generated (httptest.ResponseRecorder and the net/http server differ there beyond what the Client model captures); informational codes 102, 103, 199 are generated: the model's client is transport-aware for them (real server: sent at once, fix nothing; recorder: final)",
+			"net/http's client gives up after more than 5 informational responses: such an exchange is compared as aborted",
+			"histories: sync.Pool-style reuse is observed when consecutive requests are served from one goroutine (recorder transport); concurrent requests use a bounded barrier (150 ms) so that all wrappers are alive at once",
 			"request verdict: the operation is described as in C07 (parameters with a controlled verdict, security requirements decided by an AuthenticationFunc from the accepted-scheme set, body passing / schema / missing / content-type) and the driver evaluates the C07 model of ValidateRequest on it; ValidationHandler + unknown method is generated only for paths without template variables",
 			"w.Write of the client's writer never fails (no closed connections), so the 'failed to write response' log is not reachable",
 			"behind the real server only status, body, the X-*/Content-Type headers the model knows to be set, and connection abort (handler panic) are observable",
@@ -61,20 +70,69 @@ func init() {
 
 var c14Once sync.Once
 var c14Srv *httptest.Server
-var c14Handlers sync.Map // id -> http.Handler
+var c14Handlers sync.Map // id -> *c14Entry
 var c14Seq atomic.Int64
 var c14Client, c14ClientNoKA *http.Client
+
+// one request of a case: what the handler does on it, what the callbacks reported while it was served
+type c14Step struct {
+	obs  c14Obs
+	ops  []any
+	bar  *c14Barrier
+	done chan struct{} // real server: closed when the middleware chain has returned (or panicked) for this request
+	once sync.Once
+}
+
+type c14StepKey struct{}
+
+func c14StepOf(ctx context.Context) *c14Step {
+	st, _ := ctx.Value(c14StepKey{}).(*c14Step)
+	if st == nil {
+		return &c14Step{} // a request the harness did not send (never happens); observations are dropped
+	}
+	return st
+}
+
+// requests in flight at once: every handler waits (bounded) until all expected handlers have arrived, does
+// its calls, and waits again before returning, so that all response wrappers are alive at the same time
+type c14Barrier struct {
+	n       int32
+	arrived [2]atomic.Int32
+}
+
+func (b *c14Barrier) wait(phase int) {
+	b.arrived[phase].Add(1)
+	deadline := time.Now().Add(150 * time.Millisecond)
+	for b.arrived[phase].Load() < b.n && time.Now().Before(deadline) {
+		time.Sleep(20 * time.Microsecond)
+	}
+}
+
+type c14Entry struct {
+	h     http.Handler
+	steps []*c14Step
+}
 
 func c14Server() {
 	c14Once.Do(func() {
 		log.SetOutput(io.Discard) // the default LogFunc of the Validator prints through package log
 		c14Srv = httptest.NewUnstartedServer(http.HandlerFunc(func(w http.ResponseWriter, r *http.Request) {
-			h, ok := c14Handlers.Load(r.Header.Get("X-Verif-Case"))
+			e, ok := c14Handlers.Load(r.Header.Get("X-Verif-Case"))
 			if !ok {
 				http.Error(w, "no such case", 599)
 				return
 			}
-			h.(http.Handler).ServeHTTP(w, r)
+			ent := e.(*c14Entry)
+			i, _ := strconv.Atoi(r.Header.Get("X-Verif-Step"))
+			if i < 0 || i >= len(ent.steps) {
+				http.Error(w, "no such step", 599)
+				return
+			}
+			// the client may be done with the exchange before the chain returns (it gives up after too many
+			// informational responses, or sees the connection die on a panic): the observations of the
+			// callbacks are read only after this
+			defer ent.steps[i].once.Do(func() { close(ent.steps[i].done) })
+			ent.h.ServeHTTP(w, r.WithContext(context.WithValue(r.Context(), c14StepKey{}, ent.steps[i])))
 		}))
 		c14Srv.Config.ErrorLog = log.New(io.Discard, "", 0)
 		c14Srv.Start()
@@ -147,12 +205,28 @@ func c14Method(c hx.Case) string {
 	return "GET"
 }
 
+// "head": the request is a HEAD request; the document declares the operation under `head` as well
+func c14Head(c hx.Case) bool { return jbool(c, "head") && c14Method(c) == "GET" }
+
 func c14Template(c hx.Case) string {
 	t := "/x"
 	for _, n := range c14PathNames(c14Rq(c)) {
 		t += "/{" + n + "}"
 	}
 	return t
+}
+
+func c14Response(kind string) *openapi3.Response {
+	desc := "d"
+	resp := &openapi3.Response{Description: &desc}
+	if kind == "json" || kind == "hdrjson" {
+		resp.Content = openapi3.NewContentWithJSONSchema(openapi3.NewIntegerSchema())
+	}
+	if kind == "hdr" || kind == "hdrjson" {
+		resp.Headers = openapi3.Headers{"X-A": &openapi3.HeaderRef{Value: &openapi3.Header{Parameter: openapi3.Parameter{
+			Required: true, Schema: openapi3.NewIntegerSchema().NewRef()}}}}
+	}
+	return resp
 }
 
 func c14Doc(c hx.Case) *openapi3.T {
@@ -162,17 +236,7 @@ func c14Doc(c hx.Case) *openapi3.T {
 	op := &openapi3.Operation{Responses: &openapi3.Responses{}}
 	for _, e := range jlist(docm["responses"]) {
 		em := e.(map[string]any)
-		desc := "d"
-		resp := &openapi3.Response{Description: &desc}
-		kind := jstr(em, "kind")
-		if kind == "json" || kind == "hdrjson" {
-			resp.Content = openapi3.NewContentWithJSONSchema(openapi3.NewIntegerSchema())
-		}
-		if kind == "hdr" || kind == "hdrjson" {
-			resp.Headers = openapi3.Headers{"X-A": &openapi3.HeaderRef{Value: &openapi3.Header{Parameter: openapi3.Parameter{
-				Required: true, Schema: openapi3.NewIntegerSchema().NewRef()}}}}
-		}
-		op.Responses.Set(jstr(em, "key"), &openapi3.ResponseRef{Value: resp})
+		op.Responses.Set(jstr(em, "key"), &openapi3.ResponseRef{Value: c14Response(jstr(em, "kind"))})
 	}
 	if !jbool(c, "noq") {
 		op.Parameters = openapi3.Parameters{&openapi3.ParameterRef{Value: &openapi3.Parameter{
@@ -236,11 +300,27 @@ func c14Doc(c hx.Case) *openapi3.T {
 		}
 	} else {
 		pi.Get = op
+		if jbool(c, "head") {
+			pi.Head = op
+		}
 		if jbool(c, "decoy") {
 			pi.Post = laxHere()
 		}
 	}
 	doc.Paths.Set(c14Template(c), pi)
+	if l := jlist(docm["responses2"]); len(l) > 0 {
+		// a second operation (GET /w) with its own responses, for histories that alternate between operations
+		op2 := &openapi3.Operation{Responses: &openapi3.Responses{}}
+		for _, e := range l {
+			em := e.(map[string]any)
+			op2.Responses.Set(jstr(em, "key"), &openapi3.ResponseRef{Value: c14Response(jstr(em, "kind"))})
+		}
+		if !jbool(c, "noq") {
+			op2.Parameters = openapi3.Parameters{&openapi3.ParameterRef{Value: &openapi3.Parameter{
+				Name: "q", In: "query", Required: true, Schema: openapi3.NewIntegerSchema().NewRef()}}}
+		}
+		doc.Paths.Set("/w", &openapi3.PathItem{Get: op2})
+	}
 	if jbool(c, "decoy") {
 		doc.Paths.Set("/z", &openapi3.PathItem{Get: lax(), Post: lax()})
 	}
@@ -256,7 +336,7 @@ type c14Routers struct {
 var c14DocCache sync.Map // canonical doc text -> *c14Routers
 
 func c14RoutersFor(c hx.Case) *c14Routers {
-	cacheable := c["rq"] == nil && !jbool(c, "decoy") && !jbool(c, "noq")
+	cacheable := c["rq"] == nil && !jbool(c, "decoy") && !jbool(c, "noq") && !jbool(c, "head")
 	key := hx.Canon(c["doc"])
 	if cacheable {
 		if v, ok := c14DocCache.Load(key); ok {
@@ -304,13 +384,57 @@ func c14NewVH(c hx.Case) (*openapi3filter.ValidationHandler, error) {
 // ---- handler = op list
 
 type c14Obs struct {
-	mu   sync.Mutex
-	ran  int
-	errs []string
-	logs []string
+	mu     sync.Mutex
+	ran    int
+	errs   []string
+	logs   []string
+	ifaces []string
+	probed bool
 }
 
-func c14RunOps(w http.ResponseWriter, ops []any) {
+// the optional interfaces a handler may look for on its http.ResponseWriter (names as in
+// KinModel/MiddlewareSrc.lean, Iface.name)
+func c14Probe(w http.ResponseWriter) []string {
+	out := []string{}
+	add := func(ok bool, n string) {
+		if ok {
+			out = append(out, n)
+		}
+	}
+	_, ok := w.(http.Flusher)
+	add(ok, "Flusher")
+	_, ok = w.(interface{ FlushError() error })
+	add(ok, "FlushError")
+	_, ok = w.(http.Hijacker)
+	add(ok, "Hijacker")
+	_, ok = w.(http.Pusher)
+	add(ok, "Pusher")
+	_, ok = w.(http.CloseNotifier)
+	add(ok, "CloseNotifier")
+	_, ok = w.(io.ReaderFrom)
+	add(ok, "ReaderFrom")
+	_, ok = w.(io.StringWriter)
+	add(ok, "StringWriter")
+	_, ok = w.(interface{ Unwrap() http.ResponseWriter })
+	add(ok, "Unwrap")
+	_, ok = w.(interface{ SetReadDeadline(time.Time) error })
+	add(ok, "SetReadDeadline")
+	_, ok = w.(interface{ SetWriteDeadline(time.Time) error })
+	add(ok, "SetWriteDeadline")
+	_, ok = w.(interface{ EnableFullDuplex() error })
+	add(ok, "EnableFullDuplex")
+	return out
+}
+
+func c14Bytes(m map[string]any) string {
+	b := jstr(m, "b")
+	if n, _ := strconv.Atoi(fmt.Sprint(m["rep"])); n > 0 {
+		return strings.Repeat(b, n)
+	}
+	return b
+}
+
+func c14RunOps(w http.ResponseWriter, ops []any, st *c14Step) {
 	for _, o := range ops {
 		m, _ := o.(map[string]any)
 		switch jstr(m, "op") {
@@ -322,11 +446,26 @@ func c14RunOps(w http.ResponseWriter, ops []any) {
 			n, _ := strconv.Atoi(fmt.Sprint(m["n"]))
 			w.WriteHeader(n)
 		case "w":
-			w.Write([]byte(jstr(m, "b")))
+			w.Write([]byte(c14Bytes(m)))
+		case "ws":
+			io.WriteString(w, c14Bytes(m))
+		case "copy":
+			// the reader is wrapped so that io.Copy cannot use its WriteTo: the writer's ReadFrom is used if it has one
+			io.Copy(w, struct{ io.Reader }{strings.NewReader(c14Bytes(m))})
 		case "fl":
 			if f, ok := w.(http.Flusher); ok {
 				f.Flush()
 			}
+		case "rcfl":
+			http.NewResponseController(w).Flush()
+		case "probe":
+			if st != nil {
+				st.obs.mu.Lock()
+				st.obs.ifaces, st.obs.probed = c14Probe(w), true
+				st.obs.mu.Unlock()
+			}
+		case "panic":
+			panic("handler panic (verif)")
 		}
 	}
 }
@@ -358,12 +497,19 @@ func c14Auth(c hx.Case) openapi3filter.AuthenticationFunc {
 	}
 }
 
-func c14Build(c hx.Case, obs *c14Obs) (http.Handler, error) {
+// c14Build builds ONE middleware chain for the case; which step a request belongs to (handler calls, where the
+// callbacks report) travels in the request context.
+func c14Build(c hx.Case) (http.Handler, error) {
 	inner := http.HandlerFunc(func(w http.ResponseWriter, r *http.Request) {
-		obs.mu.Lock()
-		obs.ran++
-		obs.mu.Unlock()
-		c14RunOps(w, jlist(c["ops"]))
+		st := c14StepOf(r.Context())
+		st.obs.mu.Lock()
+		st.obs.ran++
+		st.obs.mu.Unlock()
+		if st.bar != nil {
+			st.bar.wait(0)
+			defer st.bar.wait(1)
+		}
+		c14RunOps(w, st.ops, st)
 	})
 	if jstr(c, "mode") == "vh" {
 		vh, err := c14NewVH(c)
@@ -394,33 +540,32 @@ func c14Build(c hx.Case, obs *c14Obs) (http.Handler, error) {
 			}
 			return "other"
 		}
-		rec := func(k string) {
+		rec := func(ctx context.Context, k string) {
+			obs := &c14StepOf(ctx).obs
 			obs.mu.Lock()
 			obs.errs = append(obs.errs, k)
 			obs.mu.Unlock()
 		}
 		switch jstr(c, "enc") {
 		case "vee":
-			var orig error
-			vee := &openapi3filter.ValidationErrorEncoder{Encoder: func(ctx context.Context, err error, w http.ResponseWriter) {
-				rec(kindOf(orig))
-				code := http.StatusInternalServerError // as DefaultErrorEncoder: an error without a status is a 500
-				if sc, ok := err.(openapi3filter.StatusCoder); ok {
-					code = sc.StatusCode()
-				}
-				w.WriteHeader(code)
-				w.Write([]byte("V"))
-			}}
-			vh.ErrorEncoder = func(ctx context.Context, err error, w http.ResponseWriter) {
-				orig = err
-				vee.Encode(ctx, err, w)
+			vh.ErrorEncoder = func(ctx context.Context, orig error, w http.ResponseWriter) {
+				vee := &openapi3filter.ValidationErrorEncoder{Encoder: func(ctx context.Context, err error, w http.ResponseWriter) {
+					rec(ctx, kindOf(orig))
+					code := http.StatusInternalServerError // as DefaultErrorEncoder: an error without a status is a 500
+					if sc, ok := err.(openapi3filter.StatusCoder); ok {
+						code = sc.StatusCode()
+					}
+					w.WriteHeader(code)
+					w.Write([]byte("V"))
+				}}
+				vee.Encode(ctx, orig, w)
 			}
 		case "silent":
-			vh.ErrorEncoder = func(ctx context.Context, err error, w http.ResponseWriter) { rec(kindOf(err)) }
+			vh.ErrorEncoder = func(ctx context.Context, err error, w http.ResponseWriter) { rec(ctx, kindOf(err)) }
 		default:
 			vh.ErrorEncoder = func(ctx context.Context, err error, w http.ResponseWriter) {
-				rec(kindOf(err))
-				c14RunOps(w, jlist(c["errops"]))
+				rec(ctx, kindOf(err))
+				c14RunOps(w, jlist(c["errops"]), nil)
 			}
 		}
 		if jstr(c, "entry") == "mw" {
@@ -437,45 +582,88 @@ func c14Build(c hx.Case, obs *c14Obs) (http.Handler, error) {
 	if jstr(c, "router") == "legacy" {
 		router = rs.legacy
 	}
-	opts := []openapi3filter.ValidatorOption{openapi3filter.Strict(jbool(c, "strict"))}
 	docm, _ := c["doc"].(map[string]any)
 	rq := c14Rq(c)
-	o := openapi3filter.Options{IncludeResponseStatus: jbool(docm, "includeStatus"), ExcludeResponseBody: jbool(docm, "excludeRespBody"),
-		ExcludeRequestBody: jbool(rq, "excludeBody"), ExcludeRequestQueryParams: jbool(rq, "excludeQuery"), MultiError: jbool(rq, "multi"),
-		AuthenticationFunc: c14Auth(c)}
-	opts = append(opts, openapi3filter.ValidationOptions(o))
-	recErr := func(status int, code openapi3filter.ErrCode) {
+	recErr := func(ctx context.Context, status int, code openapi3filter.ErrCode) {
+		obs := &c14StepOf(ctx).obs
 		obs.mu.Lock()
 		obs.errs = append(obs.errs, fmt.Sprintf("%d:%d", status, int(code)))
 		obs.mu.Unlock()
 	}
-	switch jstr(c, "errfn") {
-	case "default":
-	case "echo":
-		opts = append(opts, openapi3filter.OnErr(func(ctx context.Context, w http.ResponseWriter, status int, code openapi3filter.ErrCode, err error) {
-			recErr(status, code)
-			w.Header().Set("X-Err", strconv.Itoa(int(code)))
-			w.WriteHeader(status)
-			w.Write([]byte("E" + strconv.Itoa(int(code))))
-		}))
-	case "silent":
-		opts = append(opts, openapi3filter.OnErr(func(ctx context.Context, w http.ResponseWriter, status int, code openapi3filter.ErrCode, err error) {
-			recErr(status, code)
-		}))
-	default:
-		opts = append(opts, openapi3filter.OnErr(func(ctx context.Context, w http.ResponseWriter, status int, code openapi3filter.ErrCode, err error) {
-			recErr(status, code)
-			c14RunOps(w, jlist(c["errops"]))
-		}))
+	onErr := func(kind string) openapi3filter.ValidatorOption {
+		switch kind {
+		case "echo":
+			return openapi3filter.OnErr(func(ctx context.Context, w http.ResponseWriter, status int, code openapi3filter.ErrCode, err error) {
+				recErr(ctx, status, code)
+				w.Header().Set("X-Err", strconv.Itoa(int(code)))
+				w.WriteHeader(status)
+				w.Write([]byte("E" + strconv.Itoa(int(code))))
+			})
+		case "silent":
+			return openapi3filter.OnErr(func(ctx context.Context, w http.ResponseWriter, status int, code openapi3filter.ErrCode, err error) {
+				recErr(ctx, status, code)
+			})
+		}
+		return openapi3filter.OnErr(func(ctx context.Context, w http.ResponseWriter, status int, code openapi3filter.ErrCode, err error) {
+			recErr(ctx, status, code)
+			c14RunOps(w, jlist(c["errops"]), nil)
+		})
+	}
+	onLog := openapi3filter.OnLog(func(ctx context.Context, message string, err error) {
+		obs := &c14StepOf(ctx).obs
+		obs.mu.Lock()
+		obs.logs = append(obs.logs, c14LogKind(message))
+		obs.mu.Unlock()
+	})
+	var opts []openapi3filter.ValidatorOption
+	if vo, ok := c["vopts"].([]any); ok {
+		// the option list exactly as given (order, repetitions, omissions): NewValidator's defaults and
+		// "the last one wins" are the model's business
+		for _, x := range vo {
+			m, _ := x.(map[string]any)
+			switch jstr(m, "o") {
+			case "strict":
+				opts = append(opts, openapi3filter.Strict(jbool(m, "v")))
+			case "onerr":
+				opts = append(opts, onErr(jstr(m, "kind")))
+			case "onlog":
+				opts = append(opts, onLog)
+			default:
+				opts = append(opts, openapi3filter.ValidationOptions(openapi3filter.Options{
+					IncludeResponseStatus: jbool(m, "inc"), ExcludeResponseBody: jbool(m, "exb"), AuthenticationFunc: c14Auth(c)}))
+			}
+		}
+		return openapi3filter.NewValidator(router, opts...).Middleware(inner), nil
+	}
+	opts = append(opts, openapi3filter.Strict(jbool(c, "strict")))
+	o := openapi3filter.Options{IncludeResponseStatus: jbool(docm, "includeStatus"), ExcludeResponseBody: jbool(docm, "excludeRespBody"),
+		ExcludeRequestBody: jbool(rq, "excludeBody"), ExcludeRequestQueryParams: jbool(rq, "excludeQuery"), MultiError: jbool(rq, "multi"),
+		AuthenticationFunc: c14Auth(c)}
+	opts = append(opts, openapi3filter.ValidationOptions(o))
+	if jstr(c, "errfn") != "default" {
+		opts = append(opts, onErr(jstr(c, "errfn")))
 	}
 	if jstr(c, "logfn") != "default" {
-		opts = append(opts, openapi3filter.OnLog(func(ctx context.Context, message string, err error) {
-			obs.mu.Lock()
-			obs.logs = append(obs.logs, c14LogKind(message))
-			obs.mu.Unlock()
-		}))
+		opts = append(opts, onLog)
 	}
 	return openapi3filter.NewValidator(router, opts...).Middleware(inner), nil
+}
+
+// which callbacks of the case report to the harness (error callback, log callback)
+func c14Custom(c hx.Case) (bool, bool) {
+	if jstr(c, "mode") == "vh" {
+		return true, false
+	}
+	if vo, ok := c["vopts"].([]any); ok {
+		e, l := false, false
+		for _, x := range vo {
+			m, _ := x.(map[string]any)
+			e = e || jstr(m, "o") == "onerr"
+			l = l || jstr(m, "o") == "onlog"
+		}
+		return e, l
+	}
+	return jstr(c, "errfn") != "default", jstr(c, "logfn") != "default"
 }
 
 func c14Request(c hx.Case, base string) *http.Request {
@@ -488,9 +676,12 @@ func c14Request(c hx.Case, base string) *http.Request {
 	if !jbool(c, "noq") {
 		q.Set("q", "5")
 	}
+	if jbool(c, "path2") {
+		path = "/w"
+	}
 	switch jstr(c, "route") {
 	case "nopath":
-		path = "/y" + strings.TrimPrefix(path, "/x")
+		path = "/y" + strings.TrimPrefix(strings.TrimPrefix(path, "/x"), "/w")
 	case "nomethod":
 		method = "PUT"
 	}
@@ -505,6 +696,9 @@ func c14Request(c hx.Case, base string) *http.Request {
 	var body io.Reader
 	if jbool(rq, "hasBody") && jstr(rq, "bodyFail") != "empty" {
 		body = strings.NewReader(`{"a":1}`)
+	}
+	if c14Head(c) && method == "GET" {
+		method = "HEAD"
 	}
 	req, _ := http.NewRequest(method, base+path, body)
 	if jbool(rq, "hasBody") && jstr(rq, "bodyFail") != "empty" {
@@ -537,12 +731,24 @@ func c14Request(c hx.Case, base string) *http.Request {
 }
 
 func c14MayPanic(c hx.Case) bool {
-	for _, k := range []string{"ops", "errops"} {
-		for _, o := range jlist(c[k]) {
+	lists := []any{c["ops"], c["errops"]}
+	for _, st := range jlist(c["seq"]) {
+		if m, ok := st.(map[string]any); ok {
+			lists = append(lists, m["ops"])
+		}
+	}
+	for _, l := range lists {
+		for _, o := range jlist(l) {
 			m, _ := o.(map[string]any)
+			if jstr(m, "op") == "panic" {
+				return true
+			}
 			if jstr(m, "op") == "wh" {
 				if n, _ := strconv.Atoi(fmt.Sprint(m["n"])); n < 100 || n > 999 {
 					return true
+				}
+				if n, _ := strconv.Atoi(fmt.Sprint(m["n"])); n >= 100 && n <= 199 {
+					return true // many informational responses make the client give up: no silent retry on a reused connection
 				}
 			}
 		}
@@ -566,25 +772,52 @@ func c14Headers(h http.Header, server bool) [][]string {
 	return out
 }
 
-func runC14(c hx.Case) any {
-	obs := &c14Obs{}
-	h, err := c14Build(c, obs)
-	if err != nil {
-		return map[string]any{"kind": "setup-error", "error": err.Error()}
+// the requests of a case: the case itself, or — for a history {"seq": [...]} — the base case overlaid with each
+// step (route, req, ops, path2)
+func c14StepCases(c hx.Case) []hx.Case {
+	l, ok := c["seq"].([]any)
+	if !ok {
+		return []hx.Case{c}
 	}
+	out := []hx.Case{}
+	for _, st := range l {
+		x := hx.Case{}
+		for k, v := range c {
+			x[k] = v
+		}
+		if m, ok := st.(map[string]any); ok {
+			for k, v := range m {
+				x[k] = v
+			}
+		}
+		out = append(out, x)
+	}
+	return out
+}
+
+func c14ServeStep(c hx.Case, sc hx.Case, h http.Handler, st *c14Step, id string, idx int) map[string]any {
 	res := map[string]any{}
 	if jstr(c, "transport") == "server" {
-		c14Server()
-		id := strconv.FormatInt(c14Seq.Add(1), 10)
-		c14Handlers.Store(id, h)
-		defer c14Handlers.Delete(id)
-		req := c14Request(c, c14Srv.URL)
+		req := c14Request(sc, c14Srv.URL)
 		req.Header.Set("X-Verif-Case", id)
+		req.Header.Set("X-Verif-Step", strconv.Itoa(idx))
 		cl := c14Client
 		if c14MayPanic(c) {
 			cl = c14ClientNoKA
 		}
+		info := []int{}
+		var imu sync.Mutex
+		req = req.WithContext(httptrace.WithClientTrace(req.Context(), &httptrace.ClientTrace{
+			Got1xxResponse: func(code int, _ textproto.MIMEHeader) error {
+				imu.Lock()
+				info = append(info, code)
+				imu.Unlock()
+				return nil
+			}}))
 		resp, err := cl.Do(req)
+		imu.Lock()
+		res["info"] = append([]int{}, info...)
+		imu.Unlock()
 		aborted := err != nil
 		if err == nil {
 			b, rerr := io.ReadAll(resp.Body)
@@ -598,9 +831,15 @@ func runC14(c hx.Case) any {
 		}
 		res["panicked"] = aborted
 		res["kind"] = "server"
+		select {
+		case <-st.done:
+		case <-time.After(3 * time.Second):
+			res["server_side_unfinished"] = true
+		}
 	} else {
 		rec := httptest.NewRecorder()
-		req := c14Request(c, "http://example.com")
+		req := c14Request(sc, "http://example.com")
+		req = req.WithContext(context.WithValue(req.Context(), c14StepKey{}, st))
 		panicked := false
 		func() {
 			defer func() {
@@ -619,12 +858,71 @@ func runC14(c hx.Case) any {
 		res["panicked"] = panicked
 		res["kind"] = "recorder"
 	}
-	obs.mu.Lock()
-	res["ran"] = obs.ran
-	res["err"] = append([]string{}, obs.errs...)
-	res["logs"] = append([]string{}, obs.logs...)
-	obs.mu.Unlock()
+	st.obs.mu.Lock()
+	res["ran"] = st.obs.ran
+	res["err"] = append([]string{}, st.obs.errs...)
+	res["logs"] = append([]string{}, st.obs.logs...)
+	if st.obs.probed {
+		res["ifaces"] = append([]string{}, st.obs.ifaces...)
+	}
+	st.obs.mu.Unlock()
 	return res
+}
+
+func runC14(c hx.Case) any {
+	h, err := c14Build(c)
+	if err != nil {
+		return map[string]any{"kind": "setup-error", "error": err.Error()}
+	}
+	scs := c14StepCases(c)
+	steps := make([]*c14Step, len(scs))
+	par := jbool(c, "par") && len(scs) > 1
+	var bar *c14Barrier
+	if par {
+		// handlers expected to run: the steps whose route and request are fine (concurrent histories are
+		// generated in the family where that is visible in the case)
+		n := 0
+		for _, sc := range scs {
+			if jstr(sc, "route") == "ok" && jstr(sc, "req") == "ok" {
+				n++
+			}
+		}
+		bar = &c14Barrier{n: int32(n)}
+	}
+	for i, sc := range scs {
+		steps[i] = &c14Step{ops: jlist(sc["ops"]), bar: bar, done: make(chan struct{})}
+	}
+	id := ""
+	if jstr(c, "transport") == "server" {
+		c14Server()
+		id = strconv.FormatInt(c14Seq.Add(1), 10)
+		c14Handlers.Store(id, &c14Entry{h: h, steps: steps})
+		defer c14Handlers.Delete(id)
+	}
+	outs := make([]map[string]any, len(scs))
+	if par {
+		var wg sync.WaitGroup
+		for i := range scs {
+			wg.Add(1)
+			go func(i int) {
+				defer wg.Done()
+				outs[i] = c14ServeStep(c, scs[i], h, steps[i], id, i)
+			}(i)
+		}
+		wg.Wait()
+	} else {
+		for i := range scs {
+			outs[i] = c14ServeStep(c, scs[i], h, steps[i], id, i)
+		}
+	}
+	if _, ok := c["seq"].([]any); !ok {
+		return outs[0]
+	}
+	l := []any{}
+	for _, o := range outs {
+		l = append(l, o)
+	}
+	return map[string]any{"kind": "seq", "steps": l}
 }
 
 // ---- comparison
@@ -650,12 +948,20 @@ func c14Diff(c hx.Case, im, want map[string]any, full bool, checkLogs bool) stri
 	if fmt.Sprint(im["ran"]) != strconv.Itoa(wantRan) {
 		return fmt.Sprintf("handler invocations: impl %v, expected %d", im["ran"], wantRan)
 	}
-	custom := jstr(c, "mode") == "vh" || jstr(c, "errfn") != "default"
+	custom, customLog := c14Custom(c)
 	if custom && !sameStrs(toStrs(im["err"]), toStrs(want["err"]), true) {
 		return fmt.Sprintf("error callback calls: impl %v, expected %v", im["err"], want["err"])
 	}
-	if checkLogs && jstr(c, "mode") != "vh" && jstr(c, "logfn") != "default" && !sameStrs(toStrs(im["logs"]), toStrs(want["logs"]), true) {
+	if checkLogs && customLog && !sameStrs(toStrs(im["logs"]), toStrs(want["logs"]), true) {
 		return fmt.Sprintf("log callback calls: impl %v, expected %v", im["logs"], want["logs"])
+	}
+	if _, probed := im["ifaces"]; probed && want["ifaces"] != nil {
+		a, b := toStrs(im["ifaces"]), toStrs(want["ifaces"])
+		sort.Strings(a)
+		sort.Strings(b)
+		if !sameStrs(a, b, true) {
+			return fmt.Sprintf("optional interfaces the handler's writer offers: impl %v, expected %v", a, b)
+		}
 	}
 	if wantPanic := jbool(want, "panicked"); jbool(im, "panicked") != wantPanic {
 		return fmt.Sprintf("panic/abort: impl %v, expected %v (%v)", im["panicked"], wantPanic, im["panic_value"])
@@ -663,8 +969,14 @@ func c14Diff(c hx.Case, im, want map[string]any, full bool, checkLogs bool) stri
 	if server && jbool(im, "panicked") {
 		return "" // connection aborted: nothing else is observable
 	}
+	if server && want["info"] != nil && hx.Canon(im["info"]) != hx.Canon(want["info"]) {
+		return fmt.Sprintf("informational responses: impl %v, expected %v", im["info"], want["info"])
+	}
 	if fmt.Sprint(im["status"]) != fmt.Sprint(want["status"]) {
 		return fmt.Sprintf("status: impl %v, expected %v", im["status"], want["status"])
+	}
+	if server && c14Head(c) {
+		want = c14With(want, "body", "") // net/http drops the body bytes of the answer to a HEAD request
 	}
 	if jstr(im, "body") != jstr(want, "body") {
 		return fmt.Sprintf("body: impl %q, expected %q", jstr(im, "body"), jstr(want, "body"))
@@ -702,6 +1014,34 @@ func cmpC14(c hx.Case, impl any, reply map[string]any) hx.Verdict {
 	if jstr(im, "kind") == "setup-error" {
 		return hx.Verdict{IM: false, IS: false, Detail: "setup: " + jstr(im, "error")}
 	}
+	if jstr(im, "kind") == "seq" {
+		v := hx.Verdict{IM: true, IS: true}
+		is, ms, ss := jlist(im["steps"]), jlist(model["steps"]), jlist(spec["steps"])
+		if len(is) != len(ms) || len(is) != len(ss) {
+			return hx.Verdict{IM: false, IS: false, Detail: "history: number of answers differs"}
+		}
+		for i := range is {
+			ii, _ := is[i].(map[string]any)
+			mm, _ := ms[i].(map[string]any)
+			sp, _ := ss[i].(map[string]any)
+			sv := c14CmpOne(c, ii, mm, sp)
+			if !sv.IM || !sv.IS {
+				v.IM = v.IM && sv.IM
+				v.IS = v.IS && sv.IS
+				if v.Detail == "" {
+					v.Detail = fmt.Sprintf("request #%d of the history: %s", i+1, sv.Detail)
+				}
+			}
+		}
+		return v
+	}
+	return c14CmpOne(c, im, model, spec)
+}
+
+func c14CmpOne(c hx.Case, im, model, spec map[string]any) hx.Verdict {
+	if im == nil || model == nil || spec == nil {
+		return hx.Verdict{IM: false, IS: false, Detail: "missing observation"}
+	}
 	v := hx.Verdict{IM: true, IS: true}
 	if d := c14Diff(c, im, model, true, true); d != "" {
 		v.IM = false
@@ -735,10 +1075,25 @@ func c14Op(kind string, a ...any) map[string]any {
 		m["k"] = a[0]
 	case "wh":
 		m["n"] = a[0]
-	case "w":
+	case "w", "ws", "copy":
 		m["b"] = a[0]
+		if len(a) > 1 {
+			m["rep"] = a[1]
+		}
 	}
 	return m
+}
+
+func c14HasInfo(ops []any) bool {
+	for _, o := range ops {
+		m, _ := o.(map[string]any)
+		if jstr(m, "op") == "wh" {
+			if n, _ := strconv.Atoi(fmt.Sprint(m["n"])); n >= 100 && n <= 199 {
+				return true
+			}
+		}
+	}
+	return false
 }
 
 func c14DocShape(includeStatus bool, entries ...string) map[string]any {
@@ -854,6 +1209,7 @@ func genC14(ctx *hx.Ctx, emit func(hx.Case)) {
 	ct := c14Op("set", "Content-Type", "application/json")
 	alphabet := []map[string]any{
 		ct, c14Op("wh", 200), c14Op("wh", 404), c14Op("w", "12"), c14Op("w", "x"), c14Op("w", ""), c14Op("fl"), c14Op("set", "X-A", "1"), c14Op("wh", 0), c14Op("set", "X-A", "z"),
+		c14Op("panic"), c14Op("wh", 103),
 	}
 	// all op sequences of length ≤ 3 (quick) / ≤ 4 (thorough)
 	maxLen := 3
@@ -883,6 +1239,9 @@ func genC14(ctx *hx.Ctx, emit func(hx.Case)) {
 				c := c14With(base, "ops", ops, "strict", strict, "doc", doc)
 				_ = di
 				emit(c)
+				if i%6 != 0 && c14HasInfo(ops) {
+					emit(c14With(c, "transport", "server")) // informational codes differ from final ones only behind a real server
+				}
 				switch i % 6 {
 				case 0:
 					emit(c14With(c, "transport", "server"))
@@ -980,6 +1339,215 @@ func genC14(ctx *hx.Ctx, emit func(hx.Case)) {
 			}
 		}
 	}
+	// optional interfaces of the writer the handler is given (probe, ResponseController.Flush, io.Copy → ReadFrom,
+	// io.WriteString → WriteString), large bodies (beyond net/http's 4 kB buffer and io.Copy's 32 kB chunk),
+	// many pieces, informational codes in every position, panics after partial output
+	big := 40000
+	if ctx.Thorough() {
+		big = 300000
+	}
+	ifaceOps := [][]any{
+		{c14Op("probe")},
+		{c14Op("probe"), ct, c14Op("w", "12")},
+		{ct, c14Op("rcfl"), c14Op("w", "12")},
+		{ct, c14Op("w", "1"), c14Op("rcfl"), c14Op("w", "2")},
+		{ct, c14Op("rcfl"), c14Op("w", "x")},
+		{c14Op("wh", 404), c14Op("rcfl"), c14Op("w", "x")},
+		{ct, c14Op("ws", "12")},
+		{ct, c14Op("ws", "x")},
+		{ct, c14Op("copy", "12")},
+		{ct, c14Op("copy", "x")},
+		{ct, c14Op("copy", "")},
+		{c14Op("wh", 404), c14Op("copy", "1"), c14Op("ws", "2"), c14Op("w", "3")},
+		{ct, c14Op("w", "x", big)},
+		{c14Op("wh", 404), c14Op("w", "x", big)},
+		{ct, c14Op("copy", "x", big), c14Op("probe")},
+		{ct, c14Op("ws", "x", big), c14Op("w", "1")},
+		{c14Op("w", "x", 5000), c14Op("fl"), c14Op("w", "x", 5000), c14Op("wh", 404)},
+		{ct, c14Op("w", "1"), c14Op("w", "2"), c14Op("w", "3"), c14Op("w", "4"), c14Op("w", "5"), c14Op("w", "6"), c14Op("w", "7"), c14Op("w", "8")},
+		{c14Op("wh", 103), ct, c14Op("wh", 200), c14Op("w", "12")},
+		{c14Op("wh", 103), c14Op("wh", 404), c14Op("w", "1")},
+		{c14Op("wh", 102), c14Op("wh", 103), ct, c14Op("w", "12")},
+		{ct, c14Op("wh", 103)},
+		{ct, c14Op("w", "12"), c14Op("wh", 103)},
+		{c14Op("wh", 103), c14Op("wh", 103), c14Op("wh", 103), c14Op("wh", 103), c14Op("wh", 103), c14Op("wh", 103), c14Op("wh", 103), ct, c14Op("w", "12")},
+		{ct, c14Op("w", "12"), c14Op("panic")},
+		{c14Op("wh", 404), c14Op("fl"), c14Op("w", "x"), c14Op("panic"), c14Op("w", "y")},
+		{c14Op("set", "X-A", "1"), c14Op("panic")},
+		{c14Op("panic")},
+	}
+	ifaceDocs := []map[string]any{c14Docs[0], c14Docs[1], c14Docs[4], c14Docs[5], c14Docs[9]}
+	for _, ops := range ifaceOps {
+		for _, strict := range []bool{true, false} {
+			for _, doc := range ifaceDocs {
+				for _, tr := range []string{"recorder", "server"} {
+					emit(c14With(base, "ops", ops, "strict", strict, "doc", doc, "transport", tr))
+					emit(c14With(base, "ops", ops, "strict", strict, "doc", doc, "transport", tr, "errfn", "echo", "router", "legacy"))
+				}
+			}
+		}
+		for _, tr := range []string{"recorder", "server"} {
+			emit(c14With(base, "mode", "vh", "enc", "ops", "entry", "serve", "ops", ops, "transport", tr, "strict", false,
+				"errops", []any{c14Op("wh", 418), c14Op("w", "teapot")}))
+		}
+	}
+	// HEAD requests (the operation is declared under `head` too): the handler's bytes are validated and flushed as
+	// usual; a real server drops them on the wire
+	for _, ops := range [][]any{{ct, c14Op("w", "12")}, {ct, c14Op("w", "x")}, {c14Op("wh", 404), c14Op("w", "x")}, {}, {ct, c14Op("fl"), c14Op("w", "3")}} {
+		for _, strict := range []bool{true, false} {
+			for _, doc := range ifaceDocs {
+				for _, tr := range []string{"recorder", "server"} {
+					for _, router := range []string{"gorilla", "legacy"} {
+						emit(c14With(base, "head", true, "ops", ops, "strict", strict, "doc", doc, "transport", tr, "router", router))
+					}
+				}
+			}
+		}
+		for _, route := range []string{"ok", "nopath"} {
+			emit(c14With(base, "head", true, "mode", "vh", "enc", "vee", "entry", "mw", "ops", ops, "transport", "server", "strict", false, "route", route))
+		}
+	}
+	// every way of handing options to NewValidator: all lists of length ≤ 3 over a pool (order, repetition,
+	// omission → defaults), on a few handler behaviours
+	optPool := []map[string]any{
+		{"o": "strict", "v": true}, {"o": "strict", "v": false}, {"o": "onerr", "kind": "echo"}, {"o": "onerr", "kind": "silent"},
+		{"o": "onlog"}, {"o": "valopts", "inc": true, "exb": false}, {"o": "valopts", "inc": false, "exb": true},
+	}
+	var optLists [][]any
+	var recOpt func(prefix []any, n int)
+	recOpt = func(prefix []any, n int) {
+		optLists = append(optLists, append([]any{}, prefix...))
+		if n == 0 {
+			return
+		}
+		for _, o := range optPool {
+			recOpt(append(prefix, o), n-1)
+		}
+	}
+	recOpt(nil, 3)
+	optBeh := [][]any{{ct, c14Op("w", "x")}, {c14Op("wh", 404), c14Op("w", "1")}, {}}
+	for li, l := range optLists {
+		for bi, b := range optBeh {
+			c := c14With(base, "vopts", l, "ops", b, "doc", c14DocShape(false, "200", "json"))
+			emit(c)
+			if (li+bi)%7 == 0 {
+				emit(c14With(c, "transport", "server"))
+			}
+			if (li+bi)%5 == 0 {
+				emit(c14With(c, "route", "nopath"))
+			}
+			if (li+bi)%5 == 1 {
+				emit(c14With(c, "req", "missing"))
+			}
+		}
+	}
+	// histories: sequences of requests through ONE middleware chain (what a Validator keeps between requests
+	// must not influence the next answer): every pair over a pool of steps, triples over a smaller pool
+	st := func(route, req string, path2 bool, ops ...map[string]any) map[string]any {
+		l := []any{}
+		for _, o := range ops {
+			l = append(l, o)
+		}
+		m := map[string]any{"route": route, "req": req, "ops": l}
+		if path2 {
+			m["path2"] = true
+		}
+		return m
+	}
+	xa := c14Op("set", "X-A", "1")
+	behaviours := [][]map[string]any{
+		{ct, c14Op("w", "12")},                      // valid where a JSON integer is wanted
+		{ct, c14Op("w", "x")},                       // invalid body
+		{c14Op("wh", 404), c14Op("w", "x")},         // another status
+		{},                                          // nothing at all
+		{c14Op("w", "1"), c14Op("wh", 404), c14Op("w", "2")}, // write first, late WriteHeader, pieces
+		{ct, xa, c14Op("wh", 200), c14Op("w", "7")}, // with the required response header
+		{ct, c14Op("fl"), c14Op("w", "3")},          // Flush before the first write
+		{c14Op("wh", 201)},                          // status only
+		{c14Op("wh", 404), c14Op("w", "x"), c14Op("panic")}, // output, then a panic
+	}
+	var pool, small []map[string]any
+	for bi, b := range behaviours {
+		pool = append(pool, st("ok", "ok", false, b...), st("ok", "ok", true, b...))
+		if bi < 4 {
+			small = append(small, st("ok", "ok", false, b...))
+		}
+	}
+	pool = append(pool, st("nopath", "ok", false, ct, c14Op("w", "12")), st("ok", "missing", false, ct, c14Op("w", "12")))
+	small = append(small, st("ok", "type", false, ct, c14Op("w", "12")), st("ok", "ok", true, ct, c14Op("w", "12")))
+	two := func(d map[string]any, entries ...string) map[string]any {
+		x := map[string]any{}
+		for k, v := range d {
+			x[k] = v
+		}
+		x["responses2"] = c14DocShape(false, entries...)["responses"]
+		return x
+	}
+	seqDocs := []map[string]any{
+		two(c14DocShape(false, "200", "json"), "200", "any", "404", "json"),
+		two(c14DocShape(true, "200", "json", "404", "any"), "404", "any"),
+		two(c14DocExB(c14DocShape(true, "200", "hdrjson", "4XX", "json")), "200", "json"),
+	}
+	hist := 0
+	emitHist := func(seq []any, strict bool, doc map[string]any) {
+		hist++
+		c := c14With(base, "seq", seq, "strict", strict, "doc", doc, "ops", []any{})
+		emit(c)
+		switch hist % 8 {
+		case 0:
+			emit(c14With(c, "transport", "server"))
+		case 1:
+			emit(c14With(c, "errfn", "echo", "router", "legacy"))
+		case 2:
+			emit(c14With(c, "par", true))
+		case 3:
+			emit(c14With(c, "errfn", "ops", "errops", []any{c14Op("w", "oops"), c14Op("wh", 418)}, "logfn", "default"))
+		case 4:
+			emit(c14With(c, "par", true, "transport", "server", "errfn", "silent"))
+		}
+	}
+	for _, strict := range []bool{true, false} {
+		for _, doc := range seqDocs {
+			for _, a := range pool {
+				for _, b := range pool {
+					emitHist([]any{a, b}, strict, doc)
+				}
+			}
+		}
+		for _, doc := range seqDocs[:2] {
+			for _, a := range small {
+				for _, b := range small {
+					for _, d := range small {
+						emitHist([]any{a, b, d}, strict, doc)
+					}
+				}
+			}
+		}
+	}
+	// ValidationHandler histories: served / rejected in every order, both entries, every encoder
+	vhSteps := []map[string]any{st("ok", "ok", false, ct, c14Op("w", "12")), st("ok", "missing", false, c14Op("w", "x")),
+		st("nopath", "ok", false), st("ok", "ok", false, c14Op("wh", 404), c14Op("w", "x")), st("nomethod", "ok", false), st("ok", "type", false)}
+	for _, enc := range []string{"vee", "ops", "silent"} {
+		for _, entry := range []string{"serve", "mw"} {
+			for ai, a := range vhSteps {
+				for bi, b := range vhSteps {
+					seq := []any{a, b}
+					if (ai+bi)%3 == 0 {
+						seq = append(seq, vhSteps[(ai+2*bi+1)%len(vhSteps)])
+					}
+					c := c14With(base, "mode", "vh", "enc", enc, "entry", entry, "seq", seq, "ops", []any{}, "strict", false,
+						"errops", []any{c14Op("set", "X-B", "e"), c14Op("wh", 418), c14Op("w", "teapot")})
+					emit(c)
+					if (ai+bi)%4 == 1 {
+						emit(c14With(c, "transport", "server"))
+					}
+					if (ai+bi)%4 == 2 {
+						emit(c14With(c, "par", true))
+					}
+				}
+			}
+		}
+	}
 	// seeded random stream
 	n := 8000
 	if ctx.Thorough() {
@@ -987,6 +1555,24 @@ func genC14(ctx *hx.Ctx, emit func(hx.Case)) {
 	}
 	r := ctx.Rng
 	randOp := func() map[string]any {
+		if r.Chance(8) {
+			switch r.Intn(8) {
+			case 0:
+				return c14Op("panic")
+			case 1, 2:
+				return c14Op("wh", hx.Pick(r, []int{102, 103, 103, 199}))
+			case 3:
+				return c14Op("rcfl")
+			case 4:
+				return c14Op("ws", hx.Pick(r, []string{"1", "x", "45"}))
+			case 5:
+				return c14Op("copy", hx.Pick(r, []string{"1", "x", "67", ""}))
+			case 6:
+				return c14Op("probe")
+			default:
+				return c14Op("w", "x", hx.Pick(r, []int{3000, 5000, 33000})) // never digits: a 3000-digit JSON integer is not what "integer" is modelled for
+			}
+		}
 		switch r.Intn(12) {
 		case 0, 1:
 			return c14Op("wh", hx.Pick(r, []int{200, 201, 404, 500, 200, 404, 0, 99, 1000, 299}))
@@ -1101,10 +1687,74 @@ func genC14(ctx *hx.Ctx, emit func(hx.Case)) {
 		}
 		emit(c)
 	}
+	// random histories (2-4 requests; random handler behaviour, route and request outcome per request)
+	nh := 1500
+	if ctx.Thorough() {
+		nh = 12000
+	}
+	for k := 0; k < nh; k++ {
+		doc := randDoc()
+		twoOps := r.Chance(50)
+		if twoOps {
+			doc["responses2"] = randDoc()["responses"]
+		}
+		seq := []any{}
+		for i, m := 0, 2+r.Intn(3); i < m; i++ {
+			s := map[string]any{"route": "ok", "req": "ok", "ops": randOps(5)}
+			if r.Chance(10) {
+				s["route"] = hx.Pick(r, []string{"nopath", "nomethod"})
+			}
+			if r.Chance(10) {
+				s["req"] = hx.Pick(r, []string{"missing", "type"})
+			}
+			if twoOps && r.Chance(50) {
+				s["path2"] = true
+			}
+			seq = append(seq, s)
+		}
+		c := c14With(base, "seq", seq, "ops", []any{}, "strict", r.Chance(65), "doc", doc,
+			"errfn", hx.Pick(r, []string{"default", "echo", "silent", "ops"}), "errops", randOps(3),
+			"logfn", hx.Pick(r, []string{"custom", "custom", "default"}),
+			"router", hx.Pick(r, []string{"gorilla", "legacy"}),
+			"transport", hx.Pick(r, []string{"recorder", "recorder", "recorder", "server"}))
+		if r.Chance(15) {
+			c["par"] = true
+		}
+		if r.Chance(12) {
+			c["mode"] = "vh"
+			c["strict"] = false
+			c["enc"] = hx.Pick(r, []string{"vee", "ops", "silent"})
+			c["entry"] = hx.Pick(r, []string{"serve", "mw"})
+		}
+		emit(c)
+	}
 }
 
 func shrinkC14(c hx.Case) []hx.Case {
 	var out []hx.Case
+	if seq, ok := c["seq"].([]any); ok {
+		if len(seq) > 1 {
+			for _, n := range dropEach(seq) {
+				out = append(out, c14With(c, "seq", n))
+			}
+		}
+		for i, st := range seq {
+			m, _ := st.(map[string]any)
+			for _, n := range dropEach(jlist(m["ops"])) {
+				x := map[string]any{}
+				for k, v := range m {
+					x[k] = v
+				}
+				x["ops"] = n
+				l := append([]any{}, seq...)
+				l[i] = x
+				out = append(out, c14With(c, "seq", l))
+			}
+		}
+		if jbool(c, "par") {
+			out = append(out, c14With(c, "par", false))
+		}
+	}
 	for _, k := range []string{"ops", "errops"} {
 		if l, ok := c[k].([]any); ok {
 			for _, n := range dropEach(l) {
@@ -1115,18 +1765,24 @@ func shrinkC14(c hx.Case) []hx.Case {
 		}
 	}
 	if d, ok := c["doc"].(map[string]any); ok {
-		for _, n := range dropEach(jlist(d["responses"])) {
-			if len(n) == 0 {
-				continue
+		docWith := func(k string, v any) hx.Case {
+			n := map[string]any{}
+			for a, b := range d {
+				n[a] = b
 			}
-			x := cloneCase(c)
-			x["doc"] = map[string]any{"responses": n, "includeStatus": d["includeStatus"]}
-			out = append(out, x)
+			n[k] = v
+			return c14With(c, "doc", n)
+		}
+		for _, k := range []string{"responses", "responses2"} {
+			for _, n := range dropEach(jlist(d[k])) {
+				if len(n) == 0 {
+					continue // an operation keeps at least one response (a document without any is invalid)
+				}
+				out = append(out, docWith(k, n))
+			}
 		}
 		if jbool(d, "includeStatus") {
-			x := cloneCase(c)
-			x["doc"] = map[string]any{"responses": d["responses"], "includeStatus": false}
-			out = append(out, x)
+			out = append(out, docWith("includeStatus", false))
 		}
 	}
 	if rq, ok := c["rq"].(map[string]any); ok {
@@ -1159,6 +1815,11 @@ func shrinkC14(c hx.Case) []hx.Case {
 		}
 		if jstr(rq, "bodyFail") != "" {
 			out = append(out, with("bodyFail", ""))
+		}
+	}
+	if vo, ok := c["vopts"].([]any); ok {
+		for _, n := range dropEach(vo) {
+			out = append(out, c14With(c, "vopts", n))
 		}
 	}
 	if jbool(c, "decoy") {
